@@ -197,7 +197,10 @@ class XMLResource(XMLResourceLoader):
         elif is_file_object(source):
             # source is a file-like object (remote resource or local file)
             self.fp = cast(IOType, source)
-            self.access_control(getattr(source, 'url', None))
+            url = getattr(source, 'url', None)
+            if isinstance(url, str):
+                url = normalize_url(url)  # e.g. for matching a sandbox by path components
+            self.access_control(url)
         elif self._block is not None and 'tree' in self._block:
             raise XMLResourceBlocked(f"block initialization from {type(source)!r}")
         else:
